@@ -262,7 +262,7 @@ func compile(patterns []string, mode Mode) (*regexp.Regexp, error) {
 								// class: a single character stands for
 								// itself, anything else is not supported
 								c, cw := utf8.DecodeRuneInString(pat[2 : 2+j])
-								if cw != j || c == utf8.RuneError {
+								if cw != j || c == utf8.RuneError && cw <= 1 {
 									return nil, &syntax.Error{Code: syntax.ErrInvalidCharRange, Expr: pat[:w]}
 								}
 								switch c {
